@@ -539,32 +539,35 @@ done:
 
 /* ------------------------------------------------------------------ scenarios */
 
+/* memory-backed stream for the numeric digests (no system calls per value) */
+static FILE* g_m;
+static unsigned char g_mbuf[64];
 static void sc_c16_one(SB* s, unsigned int n)
 {
-	unsigned char b[16];
-	size_t k;
+	long k;
 	int v = 0x5a5a5a5a, st;
-	f_reset(g_f);
-	st = sbdf_write_7bitpacked_int32(g_f, (int)n);
-	fflush(g_f);
-	rewind(g_f);
-	k = fread(b, 1, sizeof b, g_f);
+	if (!g_m) g_m = fmemopen(g_mbuf, sizeof g_mbuf, "w+");
+	rewind(g_m);
+	st = sbdf_write_7bitpacked_int32(g_m, (int)n);
+	fflush(g_m);
+	k = ftell(g_m);
 	sb_printf(s, "w7=%d:", st);
-	sb_hex(s, b, k);
+	sb_hex(s, g_mbuf, (size_t)k);
 	sb_printf(s, " len7=%d", sbdf_get_7bitpacked_len((int)n));
-	rewind(g_f);
-	st = sbdf_read_7bitpacked_int32(g_f, &v);
-	sb_printf(s, " r7=%d:%d:%ld", st, v, ftell(g_f));
-	f_reset(g_f);
-	st = sbdf_write_int32(g_f, (int)n);
-	fflush(g_f);
-	rewind(g_f);
-	k = fread(b, 1, sizeof b, g_f);
+	/* a byte that is not a continuation ends the group sequence whatever follows */
+	g_mbuf[k] = 0;
+	rewind(g_m);
+	st = sbdf_read_7bitpacked_int32(g_m, &v);
+	sb_printf(s, " r7=%d:%d:%ld", st, v, ftell(g_m));
+	rewind(g_m);
+	st = sbdf_write_int32(g_m, (int)n);
+	fflush(g_m);
+	k = ftell(g_m);
 	sb_printf(s, " w32=%d:", st);
-	sb_hex(s, b, k);
-	rewind(g_f);
+	sb_hex(s, g_mbuf, (size_t)k);
+	rewind(g_m);
 	v = 0x5a5a5a5a;
-	st = sbdf_read_int32(g_f, &v);
+	st = sbdf_read_int32(g_m, &v);
 	sb_printf(s, " r32=%d:%d", st, v);
 }
 
